@@ -37,6 +37,8 @@ bool reservedFitsKeyword(const char* key){
 	       strncmp("COMMENT", key, 7) == 0 ||
 	       strcmp("HISTORY", key) == 0 || //commentary as well: the card has no value field
 	       strcmp("CONTINUE", key) == 0 || //continues the string value of the preceding card
+	       strcmp("PCOUNT", key) == 0 || //structural: read as integers whenever the HDU is opened,
+	       strcmp("GCOUNT", key) == 0 || //a string card of that name makes the file unopenable
 	       strcmp("EXTNAME", key) == 0 || //names the HDU: the extensions are located by name,
 	       strcmp("HDUNAME", key) == 0 || //and the search looks at the primary HDU as well
 	       strcmp("END", key) == 0); //terminates the header; anything stored after it is lost
